@@ -132,7 +132,12 @@ def materialise(case):
     def rk():
         r = rng.random()
         if r < 0.08:
-            return rng.choice([-1, 1]) * (rng.randint(10 ** 3, 10 ** 9) * n + rng.randint(0, n))   # huge amounts
+            sign, mult, rest = rng.choice([-1, 1]), rng.randint(10 ** 3, 10 ** 9), rng.randint(0, n)
+            if mult % 3 == 0:
+                mult = mult ** 7 + 1            # far beyond what a C double (or a 64-bit integer) represents exactly
+            elif mult % 21 == 1:
+                mult = 2 ** 1030 + mult         # beyond the range of a double altogether
+            return sign * (mult * n + rest)                                                        # huge amounts
         if r < 0.16:
             return rng.choice([n, -n, n - 1, -(n - 1), n + 1, 2 * n, 0])                           # around the length
         return rng.randint(-3 * n, 3 * n)
